@@ -217,7 +217,7 @@ pub fn bdd_from_tt<'a, B: Robdd<'a>>(b: &'a B, t: &Tt, order: &[usize], lvl: usi
     }
     let hi = bdd_from_tt(b, &t.cofactor(v, true), order, lvl + 1);
     let lo = bdd_from_tt(b, &t.cofactor(v, false), order, lvl + 1);
-    let x = b.var(VarLabel::new(v as u64), true);
+    let x = b.var(crate::gen::lab(v), true);
     b.ite(x, hi, lo)
 }
 
